@@ -18,7 +18,7 @@ const ON_SPELLINGS: &[&str] = &["{pasfmt on}", "// pasfmt on", "(*pasfmt ON*)", 
 /// comments that look like toggles but are not (the words must be exactly pasfmt + on/off)
 const LOOKALIKES: &[&str] = &["{pasfmt offx}", "// pasfmtoff", "{ pasfmt }", "// pasfmt of", "{ xpasfmt off }", "// not pasfmt off", "{pasfmt_off}", "(* pasfmt onn *)", "{ pasfmt\u{3000}off }", "{$pasfmt off}"];
 
-const ASM_BODIES: &[&str] = &[
+pub const ASM_BODIES: &[&str] = &[
     "MOV EAX, [EBX+4]\n    @@loop:   DEC   ECX\n      JNZ @@loop",
     "mov  eax,1 ; xor ebx , ebx\n\tPUSH   EAX\n\n   pop eax   // trailing  ",
     "DB 'a''b', \"x\\\"y\"\n   mov al, 0FFh\n  .NOFRAME",
